@@ -16,10 +16,10 @@ from pyvc.bisim import Bisim, reference_module
 PROP = "C24"
 MP = "bluesky.preprocessors"
 TRUSTED = ["A-REAL: positions and offsets are mathematical reals", "A-PLAN; abstract plans obey the generator protocol, yield a fresh Msg object each time",
-           "devices without pseudo-positioners: _normalize_devices(devices) == (set(devices), empty set) (assumed contract; coupled "
-           "pseudo-positioner bookkeeping is not decided)",
+           "the wrapper bisimulations use devices without pseudo-positioners: _normalize_devices(devices) == (set(devices), empty set); coupled "
+           "families are covered by the contract of __read_and_stash_a_motor only (the family is recorded as a whole at its first stash)",
            "uuid tokens correspond by request order; print() is effect-free"]
-NOT_DECIDED = "pseudo-positioner (coupled parent) bookkeeping; whether the hardware physically returns"
+NOT_DECIDED = "_normalize_devices / merge_axis for pseudo-positioners and mixed pseudo / real motion; whether the hardware physically returns"
 REF_FILE = "contracts/refs/c24.py"
 REF = open(os.path.join(os.path.dirname(os.path.dirname(os.path.abspath(__file__))), REF_FILE)).read()
 DEAD = [(f"{MP}:plan_mutator", v) for v in ("msg", "inner_ret", "new_gen", "tail_gen", "exhausted_gen", "failed_gen", "gen", "saved_result", "e", "ex")]
@@ -208,3 +208,46 @@ def _groupby(I, key, seq):
 for _fn, _ref in (("relative_set_wrapper", "ref_relative_set"), ("reset_positions_wrapper", "ref_reset_positions")):
     for _listed in ("r1", "u"):
         _mk_pp(_fn, _ref, _listed)
+
+
+# ------------------------------------------------------------------------------------------------ coupled (pseudo-positioner) families
+RS = f"{MP}:__read_and_stash_a_motor"
+E_FAM = (f"{RS}#ensures[a coupled family is recorded as a whole, from one reading of the parent's position: the parent and every one of its pseudo "
+         "axes are recorded (so that no later set of a sibling stashes the family again, after it has moved); entries of other devices untouched]")
+
+
+@task("read_and_stash.coupled_family", PROP, functions=[RS], expect=[E_FAM])
+def stash_family(I):
+    """'initial position' in the statement is the position before the wrapper's plan moved anything: insert_reads stashes an object only
+    when it is not yet recorded, so the stash of a pseudo axis must record its whole coupled family at once"""
+    w = I.w
+    n = w.choose([2, 3], "pseudo axes of the parent")
+    pos = tuple(w.real(f"p{i}") for i in range(n))
+    parent = Opaque("pp", {"token": "dev", "truth": True, "isinstance_default": False, "isinstance": {"Locatable": False},
+                           "hasattr": {"position": True}, "attrs": {"name": "pp", "parent": None, "position": pos}})
+    kids = [Opaque(f"ax{i}", {"token": "dev", "truth": True, "isinstance_default": False, "isinstance": {"Locatable": False},
+                              "hasattr": {"position": True}, "attrs": {"name": f"ax{i}", "parent": parent, "position": pos[i]}}) for i in range(n)]
+    parent.attrs["pseudo_positioners"] = tuple(kids)
+    other = Opaque("other", {"token": "dev", "truth": True, "isinstance_default": False, "attrs": {"name": "other", "parent": None}})
+    other_pos = w.real("other_position")
+    who = w.choose(["parent"] + [f"ax{i}" for i in range(n)], "object that is set first")
+    obj = parent if who == "parent" else kids[int(who[2:])]
+    ip = {other: other_pos} if w.choose([False, True], "another device recorded already") else {}
+    before = dict(ip)
+    g = I.call_value(I.get_function(RS), obj, ip, {parent})
+    rp = {"replay": "relative.stash_family", "axes": n, "who": who}
+    try:
+        out = g.resume(("send", None))
+    except PyRaise as pr:
+        w.fail(E_FAM, dict(rp, raised=repr(pr.exc)))
+        return
+    if out[0] != "return":
+        w.fail(E_FAM, dict(rp, note="yielded a message although the object has a position attribute"))
+        return
+    ok = (parent in ip and all(k in ip for k in kids) and all(ip[k] is v for k, v in before.items()) and set(ip) == set(before) | {parent} | set(kids))
+    cond = ok
+    if ok:
+        pp = ip[parent]
+        cond = And(isinstance(pp, tuple) and len(pp) == n, *[Eq(ip[kids[i]], pos[i]) for i in range(n)],
+                   *([Eq(pp[i], pos[i]) for i in range(n)] if isinstance(pp, tuple) and len(pp) == n else [False]))
+    w.check(E_FAM, cond, rp)
